@@ -348,6 +348,18 @@ ARGS_LOOP:
 		// parents so it marks them as an unknown option that needs to be used at a
 		// different level. It is as if it was ignoring getoptions.Pass.
 		if optPair, is := isOption(iterator.Value(), mode, false); is {
+			// The iterator moves when an option of this token takes arguments, keep the token itself.
+			token := iterator.Value()
+
+			// With require order, parsing stops at a token that has an unknown option: none of its options is interpreted.
+			if currentProgramNode.requireOrder {
+				for _, p := range optPair {
+					if len(getAliasNameFromPartialEntry(currentProgramNode, p.Option)) == 0 {
+						storeRemainingAsText(iterator, currentProgramNode)
+						break ARGS_LOOP
+					}
+				}
+			}
 
 			// iterate over the possible cli args and try matching against expectations
 			passedThrough := false // the token is passed to the remaining array only once
@@ -356,23 +368,19 @@ ARGS_LOOP:
 				optionMatches := getAliasNameFromPartialEntry(currentProgramNode, p.Option)
 				if len(optionMatches) > 1 {
 					sort.Strings(optionMatches)
-					err := fmt.Errorf(text.ErrorAmbiguousArgument, iterator.Value(), optionMatches)
+					err := fmt.Errorf(text.ErrorAmbiguousArgument, token, optionMatches)
 					return currentProgramNode, []string{}, err
 				}
 
 				if len(optionMatches) == 0 {
-					if currentProgramNode.requireOrder {
-						storeRemainingAsText(iterator, currentProgramNode)
-						break ARGS_LOOP
-					}
 					// TODO: This shouldn't append new children but update existing ones and isOption needs to be able to check if the option expects a follow up argument.
-					opt := newUnknownCLIOption(currentProgramNode, p.Option, iterator.Value(), p.Args...)
+					opt := newUnknownCLIOption(currentProgramNode, p.Option, token, p.Args...)
 					currentProgramNode.UnknownOptions = append(currentProgramNode.UnknownOptions, opt)
 
 					switch currentProgramNode.unknownMode {
 					case Pass, Warn:
 						if !passedThrough {
-							currentProgramNode.ChildText = append(currentProgramNode.ChildText, iterator.Value())
+							currentProgramNode.ChildText = append(currentProgramNode.ChildText, token)
 							passedThrough = true
 						}
 					}
